@@ -237,6 +237,11 @@ impl AsyncWrite for UtpStreamWriteHalf {
 
         g.writer_shutdown = true;
         update_optional_waker(&mut g.writer_waker, cx);
+        // The dispatcher may be parked waiting for the writer, wake it so that it sends the FIN.
+        if let Some(w) = g.dispatcher_waker.take() {
+            drop(g);
+            w.wake();
+        }
         Poll::Pending
     }
 }
